@@ -8,15 +8,15 @@ OUT="/verif/seeded/$NAME"
 mkdir -p "$OUT"
 cp "$SRC/patch.diff" "$OUT/patch.diff"
 DEMO=$(ls "$SRC"/demo*.py | head -1)
-cp "$DEMO" "$OUT/$(basename $DEMO)"
+cp "$SRC"/demo*.py "$OUT/"
 [ -f "$SRC/notes.md" ] && cp "$SRC/notes.md" "$OUT/notes.md"
 git -C /repo worktree remove --force "$WT" 2>/dev/null
 git -C /repo worktree add -q --detach "$WT" HEAD || exit 2
 cd "$WT"
-mkdir -p MUTANTS/x && cp "$DEMO" MUTANTS/x/
+mkdir -p MUTANTS/x && cp "$SRC"/demo*.py MUTANTS/x/
 D="MUTANTS/x/$(basename $DEMO)"
 run_demo() { PYTHONPATH="$WT:$WT/selftests/isolation" timeout 900 /venv/bin/python "$D" > "$1" 2>&1; echo $?; }
-sed -i "s#/tmp/wt-[A-Za-z0-9]*#$WT#g" "$D"
+sed -i "s#/tmp/wt-[A-Za-z0-9]*#$WT#g" MUTANTS/x/*.py
 CLEAN_RC=$(run_demo "$OUT/demo_clean.txt")
 if ! git apply "$OUT/patch.diff" 2> "$OUT/apply_err.txt"; then
   echo "{\"property\": \"$PROP\", \"name\": \"$NAME\", \"applies\": false}" > "$OUT/meta.json"
